@@ -54,6 +54,11 @@ def run_case(ctx, S, a, b, m, tag, reuse=None):
             list(prev.ticks(m)) if m is not None else list(prev.ticks())
             prev.tickFormat(m) if m is not None else prev.tickFormat()
             ctx.path("copy-sibling-asked-first")
+        elif reuse == "format-for-other-count-first":
+            s = S.LinearScale().domain([a, b])
+            s.tickFormat(3 if m != 3 else 7)
+            list(s.ticks(50 if m != 50 else 5))
+            ctx.path("format-for-other-count-first")
         elif reuse in ("ticks-then-nice", "ticks-then-nice-other-count"):
             # ticks and format asked for, then the domain moved by nice() (no domain() call in between): the ticks asked for
             # afterwards belong to the domain the scale reports then
@@ -108,7 +113,7 @@ def worker(ctx, shard):
     rng = ctx.rng("ticks%d" % shard["sub"])
     for _ in range(shard["n"]):
         a, b, m, tag = lin.gen_domain(rng)
-        run_case(ctx, S, a, b, m, tag, reuse=rng.choice([None, None, None, "same-object", "copy", "ticks-then-nice", "ticks-then-nice-other-count", "copy-sibling-asked-first"]))
+        run_case(ctx, S, a, b, m, tag, reuse=rng.choice([None, None, None, "same-object", "copy", "ticks-then-nice", "ticks-then-nice-other-count", "copy-sibling-asked-first", "format-for-other-count-first"]))
     for k, v in cnt.items():
         ctx.event(k, v)
     p.uninstall()
